@@ -61,24 +61,33 @@ def prepare(scratch):
 def build_native(scratch):
     cache = os.path.join(VERIF, 'out')
     os.makedirs(cache, exist_ok=True)
+    crate = os.path.join(VERIF, 'native')
+    tdir = os.path.join(cache, 'native-target')
+    if os.path.realpath(REPO) != '/repo':
+        # a copy of the repository is being checked (VERIF_REPO): point the runner's path dependency at it
+        crate = os.path.join(scratch, 'native')
+        shutil.copytree(os.path.join(VERIF, 'native'), crate, ignore=shutil.ignore_patterns('target'))
+        ct = open(os.path.join(crate, 'Cargo.toml')).read().replace('path = "/repo"', 'path = "%s"' % os.path.realpath(REPO))
+        open(os.path.join(crate, 'Cargo.toml'), 'w').write(ct)
+        tdir = os.path.join(cache, 'native-target-' + hashlib.sha256(os.path.realpath(REPO).encode()).hexdigest()[:8])
     lock = open(os.path.join(cache, 'native.lock'), 'w')
     fcntl.flock(lock, fcntl.LOCK_EX)
     try:
         env = dict(os.environ)
         env['RUSTUP_TOOLCHAIN'] = 'nightly'
         env['CARGO_NET_OFFLINE'] = 'true'
-        env['CARGO_TARGET_DIR'] = os.path.join(cache, 'native-target')
+        env['CARGO_TARGET_DIR'] = tdir
         env['RUSTFLAGS'] = '--cfg cactusref_verif'
-        r = subprocess.run(['cargo', 'build', '--offline', '--quiet'], cwd=os.path.join(VERIF, 'native'), env=env,
-                           capture_output=True, text=True)
+        r = subprocess.run(['cargo', 'build', '--offline', '--quiet'], cwd=crate, env=env, capture_output=True, text=True)
         if r.returncode != 0:
             raise Unsupported('native runner build failed:\n' + r.stderr[-3000:])
         dst = os.path.join(scratch, 'vrunner')
-        shutil.copy2(os.path.join(env['CARGO_TARGET_DIR'], 'debug', 'vrunner'), dst)
+        shutil.copy2(os.path.join(tdir, 'debug', 'vrunner'), dst)
     finally:
         fcntl.flock(lock, fcntl.LOCK_UN)
     n = scr.Native(scratch, VERIF)
     n.bin = dst
+    n.crate = crate
     return n
 
 
@@ -338,7 +347,7 @@ def miri_replay(cs, scratch):
     env['RUSTFLAGS'] = '--cfg cactusref_verif'
     try:
         r = subprocess.run(['cargo', '+nightly', 'miri', 'run', '--offline', '--quiet', '--', path, '0'],
-                           cwd=os.path.join(VERIF, 'native'), env=env, capture_output=True, text=True, timeout=600)
+                           cwd=getattr(G.get('native'), 'crate', os.path.join(VERIF, 'native')), env=env, capture_output=True, text=True, timeout=600)
     except subprocess.TimeoutExpired:
         return False, 'miri: timeout'
     if 'Undefined Behavior' in r.stderr:
